@@ -697,6 +697,7 @@ func (a *analysis) checkControl(x *verifkit.Exec) {
 	callLive, callStatus := map[int]bool{}, map[int]string{}
 	startInFlight, startInFlightStatus := 0, ""
 	failedBuildSeen := false
+	lastStatusWriteFailed := false
 	for _, e := range a.evs {
 		switch {
 		case (isSource(e.Comp) || isDest(e.Comp) || e.Comp == "dlq") && e.Kind == "open":
@@ -713,12 +714,15 @@ func (a *analysis) checkControl(x *verifkit.Exec) {
 			if open[e.Comp] > 0 {
 				open[e.Comp]--
 			}
+		case e.Comp == "db" && e.Kind == "putfail" && strings.HasPrefix(e.Arg, "pipeline:instance:"):
+			lastStatusWriteFailed = true // the store refused the status write: the stored status cannot agree with the run
 		case e.Comp == "db" && e.Kind == "put" && strings.HasPrefix(e.Arg, "pipeline:instance:"):
 			parts := strings.SplitN(e.Arg, "|", 2)
 			if len(parts) == 2 {
 				_, st, _ := stack.ParseDescribe(parts[1])
 				if st != "" {
 					status = st
+					lastStatusWriteFailed = false
 				}
 			}
 		case e.Comp == "ctl" && e.Kind == "call":
@@ -806,7 +810,7 @@ func (a *analysis) checkControl(x *verifkit.Exec) {
 			liveRun = true
 		}
 	}
-	if !x.StepCapHit && len(x.W.Pending()) == 0 {
+	if !x.StepCapHit && len(x.W.Pending()) == 0 && !lastStatusWriteFailed {
 		if status == "Running" && !liveRun {
 			a.bad("C11/status-running-without-run", "the stored status is Running but no connector of the pipeline is open: the status does not agree with how the last run ended")
 		}
